@@ -1,5 +1,5 @@
 SPECIFICATION TSpec
 CONSTRAINT Progress
 POSTCONDITION Accepted
-INVARIANTS Total ConsumedBounded ResumableExactly SegmentationIndependent
+INVARIANTS GeneratorClaimHolds Total ConsumedBounded ResumableExactly SegmentationIndependent
 CHECK_DEADLOCK FALSE
